@@ -192,6 +192,14 @@ def systematic_cases():
     cases.append(mk_case("combine(name='t', deps=['//:h1', '//lib:h2'])\n", True, "combine distinct names"))
     cases.append(mk_case("combine(name='t', deps=[':x', '//lib:x'])\n", False, "combine duplicate dep name", extra_files={"lib/COND": HELPERS["lib"] + "run_command(name='x', run='true')\n"},
                          raw_cond=HELPERS[""] + "run_command(name='x', run='true')\ncombine(name='t', deps=[':x', '//lib:x'])\n"))
+    # names are case-sensitive: Data and data are two names (combine), T and t two tasks of one file
+    for a, b in (("Data", "data"), ("x", "X"), ("a-B", "A-b"), ("run_1", "RUN_1")):
+        cases.append(mk_case(None, True, "combine dependency names differing only in case %s/%s" % (a, b),
+                             raw_cond=HELPERS[""] + "run_command(name=%r, run='true')\nrun_command(name=%r, run='true')\ncombine(name='t', deps=[%r, %r])\n" % (a, b, ":" + a, ":" + b)))
+        cases.append(mk_case(None, True, "combine dependency names differing only in case across packages %s/%s" % (a, b), extra_files={"lib/COND": HELPERS["lib"] + "run_command(name=%r, run='true')\n" % b},
+                             raw_cond=HELPERS[""] + "run_command(name=%r, run='true')\ncombine(name='t', deps=[%r, %r])\n" % (a, ":" + a, "//lib:" + b)))
+        cases.append(mk_case(None, True, "task names of one file differing only in case %s/%s" % (a, b), raw_cond=HELPERS[""] + "run_command(name=%r, run='true')\nrun_command(name=%r, run='true')\ngroup(name='t', deps=[%r, %r])\n" % (a, b, ":" + a, ":" + b)))
+    cases.append(mk_case(None, True, "task named like the target in another case", raw_cond=HELPERS[""] + "run_command(name='T', run='true')\nrun_command(name='t', run='true', deps=[':T'])\n"))
     cases.append(mk_case("group(name='t', deps=[':x', '//lib:x'])\n", True, "group may have deps with equal names", extra_files={"lib/COND": HELPERS["lib"] + "run_command(name='x', run='true')\n"},
                          raw_cond=HELPERS[""] + "run_command(name='x', run='true')\ngroup(name='t', deps=[':x', '//lib:x'])\n"))
     # option keys / many options
